@@ -34,6 +34,10 @@ Inductive cop :=
                                                  after drawing (transaction rolled back)      *)
 | COpen (b : string)                          (* OpenBucket: seeds the clock from the bucket  *)
 | CClose (b : string)
+| CDropColl (b : string)                      (* DropDataStore of a named collection of bucket b: the
+                                                 persisted high-water mark is the bucket's, so the
+                                                 clock and the mark are untouched - whichever
+                                                 collection issued the newest CAS                *)
 | CRestart.                                   (* process dies / exits: clock state is lost,
                                                  every bucket is closed, persisted marks stay *)
 
@@ -67,6 +71,7 @@ Definition cstep (s : proc) (o : cop) : proc * list cev :=
               (if is_open b s then p_open s else b :: p_open s), [])
   | CClose b =>
       (mkProc (p_high s) (p_persist s) (filter (fun x => negb (String.eqb b x)) (p_open s)), [])
+  | CDropColl _ => (s, [])
   | CRestart => (mkProc 0 (p_persist s) [], [EvRestart])
   end.
 
